@@ -141,6 +141,30 @@ Example C32_failed_restore_nonvacuous :
   map f_base (d_index (cleanup_f aon_dir [7%N] 0 true (fun _ _ => false))) = [1%N; 2%N; 3%N].
 Proof. vm_compute. repeat split; try reflexivity. left. reflexivity. Qed.
 
+(** ... and for the trashing direction: an UNASSIGNED, consistently named repository whose simple shards cleanup
+    moves to the trash ([G] = the shards moveAll is given: all of them, minus the compound ones when shardMerging is on;
+    here: all simple, distinct names) and for which ANY of these renames fails ends up with no file of any of its
+    shards' names [g0] anywhere: not in the index and not in the trash — no partial copy that a later cleanup would
+    restore as a partial repository.  (The trash holds only shards with a live repository, as moveAll puts them
+    there; a conflicting trashed copy is removed by the first phase.) *)
+Theorem C32_failed_trashing_drops_whole_repository : forall d repos now sm mvfail g0 e id,
+  wf d -> (forall t, In t (d_trash d) -> alive_entries t <> []) ->
+  In g0 (d_index d) -> f_compound g0 = false -> In e (alive_entries g0) -> e_id e = id ->
+  ~ In id repos -> consistent (group (get_shards (d_index d)) id) = true ->
+  let G := filter (fun s => negb (sm && s_compound s)) (group (get_shards (d_index d)) id) in
+  (forall s, In s G -> s_compound s = false) -> NoDup (map s_base G) -> any_fail mvfail false G = true ->
+  (forall g, In g (d_index (cleanup_f d repos now sm mvfail)) -> f_base g <> f_base g0) /\
+  (forall g, In g (d_trash (cleanup_f d repos now sm mvfail)) -> f_base g <> f_base g0).
+Proof. intros. eapply failed_trashing_drops_all; eauto. Qed.
+Print Assumptions C32_failed_trashing_drops_whole_repository.
+
+Definition ex_trashing_dir : dir := mkD [aon_f 1; aon_f 2; aon_f 3; mkF 9 false 0 [mkE 8 8 false 0]] [] 0.
+Example C32_failed_trashing_nonvacuous :
+  any_fail aon_fail2 false (filter (fun s => negb (true && s_compound s)) (group (get_shards (d_index ex_trashing_dir)) 7)) = true /\
+  cleanup_f ex_trashing_dir [8%N] 0 true aon_fail2 = mkD [mkF 9 false 0 [mkE 8 8 false 0]] [] 0 /\
+  map f_base (d_trash (cleanup_f ex_trashing_dir [8%N] 0 true (fun _ _ => false))) = [1%N; 2%N; 3%N].
+Proof. vm_compute. repeat split; reflexivity. Qed.
+
 (** unassigned_not_searchable_after: for every well-formed directory, every assigned set and both settings
     of shardMerging, no repository outside the assigned set is alive in any index shard after cleanup
     (it was trashed, tombstoned, or deleted; nothing revived it). *)
